@@ -2753,13 +2753,20 @@ class Trimesh(Geometry3D):
         # if the density or center of mass was overridden they will be put into data
         density = self._data.data.get("density", None)
         center_mass = self._data.data.get("center_mass", None)
-        return triangles.mass_properties(
+        mass = triangles.mass_properties(
             triangles=self.triangles,
             crosses=self.triangles_cross,
             density=density,
             center_mass=center_mass,
             skip_inertia=False,
         )
+        # the result is kept in the cache so like every other cached
+        # array the computed values can't be altered in-place
+        if center_mass is None:
+            mass.center_mass.flags.writeable = False
+        if mass.inertia is not None:
+            mass.inertia.flags.writeable = False
+        return mass
 
     def invert(self) -> None:
         """
